@@ -256,8 +256,66 @@ def st_distreg():
     ], cfg_extra=cfg)
 
 
-CHEAP = [st_liesel_graph, st_liesel_build, st_var_wiring, st_chain, st_groups, st_distreg]
-ALL = CHEAP + [st_mh, st_da, st_engine, st_results]
+def st_logging():
+    from harness import growth_driver as D
+
+    rng = random.Random(12)
+    while True:
+        t = D.logging_trace(rng, 16)
+        ie = next((i for i, e in enumerate(t["ev"]) if e["ev"] == "emit" and len(e["delivered"]) >= 1), None)
+        ir = next((i for i, e in enumerate(t["ev"]) if e["ev"] == "reset" and e["before"] >= 2), None)
+        if ie is not None and ir is not None:
+            break
+
+    def c1(tr):
+        tr["ev"][ie]["delivered"] = tr["ev"][ie]["delivered"][:-1]
+
+    def c2(tr):
+        tr["ev"][ir]["obs"]["handlers"]["liesel"] = []      # what the documentation says
+    return _run("Logging", "Trace_Logging.tla", t, [
+        ("a handler that did receive the record is left out", c1, ie + 1, "record_delivered_to_exactly_the_handlers_on_the_propagation_chain"),
+        ("a reset that really removes every handler", c2, ir + 1, "reset_as_coded_keeps_every_second_handler"),
+    ], cfg_extra="CONSTANTS ResetAsCoded = TRUE MaxHandlers = 99\n")
+
+
+def st_builder_life():
+    from harness import growth_driver as D
+
+    rng = random.Random(13)
+    t = D.builder_life_trace(rng, ops=[("set_model", 1), ("add_kernel", 0, False), ("set_initial_values",), ("set_epochs",), ("build",),
+                                       ("set_model", 2), ("build",)])
+
+    def c1(tr):
+        tr["ev"][-1]["engine_kmodels"] = [2]        # what the documentation promises
+
+    def c2(tr):
+        tr["ev"][4]["kernels"][0]["ident"] = "kernel_01"
+    return _run("EngineBuilderLife", "Trace_EngineBuilderLife.tla", t, [
+        ("second engine's kernel bound to the new interface", c1, 7, "engine_kernels_are_the_builders_kernels"),
+        ("another automatic identifier", c2, 5, "kernels_bound_and_named_as_coded"),
+    ], cfg_extra="CONSTANTS NM = 2 MaxK = 99 MaxE = 99 Rebind = FALSE\n")
+
+
+def st_mh_iface():
+    from harness import mhiface_driver as D
+
+    t = D.trace(5, "dataclass")
+    ia = next(i for i, e in enumerate(t["ev"]) if e["ev"] == "mh" and e["moved"])
+    ir = next(i for i, e in enumerate(t["ev"]) if e["ev"] == "mh" and not e["moved"])
+
+    def c1(tr):
+        tr["ev"][ia]["out"]["t"] = "7.25"          # a member that is not what the input held or the proposal said
+
+    def c2(tr):
+        tr["ev"][ir]["out"]["a"] = tr["ev"][ir]["pos"].get("a", "9.0")
+    return _run("MHIface", "Trace_MHIface.tla", t, [
+        ("accepted state with a re-initialised member", c1, ia + 1, "accept_returns_input_state_with_only_the_proposed_fields_replaced"),
+        ("rejected step returns something else than its input", c2, ir + 1, "reject_returns_input_exactly"),
+    ])
+
+
+CHEAP = [st_liesel_graph, st_liesel_build, st_var_wiring, st_chain, st_groups, st_distreg, st_logging, st_builder_life]
+ALL = CHEAP + [st_mh, st_da, st_engine, st_results, st_mh_iface]
 
 
 def run(which):
